@@ -7,7 +7,7 @@ import replay as R
 # kernels whose symbolic execution / solving does not finish within 15 minutes on 16 cores (measured by the capped sweep,
 # out/sweep.sh): kept as `experimental` - built and listed, part of no registered command (DESIGN.md section 7)
 NOT_FINISHING = re.compile(r"^(fn\.subraw\.tii|fn\.(pow\.ii|subraw\.ti|replace\.sss|tokenize\.ssb?)\.g|fn\.m_count\.T|fn\.m_put\.Ti[idn]|fn\.m_delete\.Ti|"
-                           r"c19\.main\.args2|c06\.forall\.run\.(auto|desc)|c18\.csv\.\d+|c16\.ctor\.full\.\d+|c14\.clone|op\.exp\.ii\.full)$")
+                           r"c19\.main\.args2|c06\.forall\.run\.(auto|desc)|c18\.csv\.\d+|c16\.ctor\.full\.\d+|c14\.clone|op\.exp\.ii\.full|op\.(add|sub|mul|div)\.(id|di))$")
 
 def load_instances():
     insts = []
